@@ -14,7 +14,7 @@ values, element types of structs/arrays and alias/subrange resolution are not de
 import re
 import collections
 
-from ..cfg import F, op_local
+from ..cfg import place_fields, F, op_local
 from ..prov import origins, operand_origins
 
 CRATES = ['trust_runtime']
@@ -23,7 +23,7 @@ EXPLANATION = __doc__
 
 RT = 'trust_runtime::'
 MUT = re.compile(r'^trust_runtime::memory::VariableStorage::(set_global|set_local|set_instance_var|write_by_ref|set_retain)$')
-COERCERS = re.compile(r'harness::coerce::coerce_value_to_type$|io::coerce_from_io$|eval::stmt::coerce_loop_value$|runtime::cycle::typed_for_slot$')
+COERCERS = re.compile(r'harness::coerce::coerce_value_to_type$|harness::coerce::coerce_value_to_declared_type$|io::coerce_from_io$|eval::stmt::coerce_loop_value$|runtime::cycle::typed_for_slot$')
 DEFAULTS = re.compile(r'value::defaults::default_value_for_type_id$|default_value_for_type_id$')
 INSTANCES = re.compile(r'instance::create_(fb|class|program)_instance$')
 PARTIAL = re.compile(r'partial_access::write_partial_access$|write_partial_access$')
@@ -350,8 +350,9 @@ def _r2(ctx):
         else:
             r2.bad('for-control', 'a FOR control-variable write no longer goes through coerce_loop_value (%d coerced, %d not)' % (n_ok, n_bad), loc=fn.loc(0))
     for fid, callee, what in (('trust_runtime::io::IoInterface::read_inputs', 'coerce_from_io', 'io-latch'),
-                              ('trust_runtime::instance::init_var_defaults', 'coerce_value_to_type', 'instance-initialisers'),
-                              ('trust_runtime::harness::config::apply_globals', 'coerce_value_to_type', 'global-initialisers')):
+                              ('trust_runtime::instance::init_var_defaults', 'coerce_value_to_declared_type', 'instance-initialisers'),
+                              ('trust_runtime::harness::config::apply_globals', 'coerce_value_to_declared_type', 'global-initialisers'),
+                              ('trust_runtime::harness::config::apply_config_inits', 'coerce_value_to_declared_type', 'config-initialisers')):
         rec = fx.fns.get(fid)
         if rec is None:
             r2.bad('anchor-missing|%s' % what, '%s not found' % fid)
@@ -362,3 +363,60 @@ def _r2(ctx):
             r2.ok(what)
         else:
             r2.bad(what, '%s no longer calls %s before storing' % (fid.split('::')[-1], callee), loc=fn.loc(0))
+    # coerce_value_to_type knows the elementary types only and hands every other type back untouched (F43): a value that
+    # is stored into a *declared* variable has to go through the registry-aware coercer. The partial one may be called
+    # from that wrapper, from the typed-literal lowering (`INT#5`: the prefix names the type) and from the debug adapter
+    # (reviewed: it types against the evaluated type of an expression, and the runtime re-types on the drain, F30)
+    PARTIAL = 'trust_runtime::harness::coerce::coerce_value_to_type'
+    MAY = re.compile(r'^trust_runtime::harness::coerce::|^trust_runtime::harness::lower::expr::lower_literal$|^trust_debug::adapter::variables::')
+    n_pc = 0
+    for k in sorted(fx.fns):
+        if '::tests::' in k:
+            continue
+        f2 = F(fx.fns[k])
+        cs = f2.calls(lambda n: n == PARTIAL)
+        if not cs:
+            continue
+        n_pc += len(cs)
+        owner = k.split('::{closure')[0]
+        if MAY.search(owner):
+            r2.ok('partial-coercer|%s' % owner.split('::')[-1], loc=f2.loc(cs[0][0]))
+        else:
+            r2.bad('partial-coercer|%s' % owner[len('trust_runtime::'):] if owner.startswith('trust_runtime::') else 'partial-coercer|%s' % owner,
+                   '%s types a value with coerce_value_to_type, which passes every non-elementary type (alias, subrange, enum, struct, array, FB instance) through untouched: a value for a variable of such a type is stored with whatever tag it came with' % owner.split('::')[-1], loc=f2.loc(cs[0][0]))
+    r2.saw(n_pc)
+    # instance handles (Value::Instance(id), typed I/O bindings, access paths) stay valid or dangle, but never come to
+    # name another instance: the id counter only moves forward. Every write of it is an increment of its own value.
+    from ..dep import deps as _deps2
+    n_w = 0
+    for k in sorted(fx.fns):
+        if not k.startswith('trust_runtime::') or '::tests::' in k:
+            continue
+        f2 = F(fx.fns[k])
+        for b in f2.g:
+            for st in f2.bbs[b]['s']:
+                if st[0] != 'A' or not place_fields(st[1]) or not place_fields(st[1])[-1].endswith('VariableStorage.next_instance_id'):
+                    continue
+                n_w += 1
+                short = k[len('trust_runtime::'):]
+                d = _deps2(f2, st[2][1]) if st[2][0] == 'use' else None
+                selfdep = d is not None and any(f.endswith('VariableStorage.next_instance_id') for f in d.fields)
+                inc = False
+                if st[2][0] == 'use' and st[2][1][0] in ('c', 'm'):
+                    for (db, dk, drv) in f2.defs.get(st[2][1][1][0], []):
+                        if dk == 'A' and drv[0] == 'bin' and drv[1] in ('Add', 'AddWithOverflow'):
+                            inc = True
+                        if dk == 'C' and re.search(r'::(checked_add|saturating_add|wrapping_add)$', f2.call_name(db) or ''):
+                            inc = True
+                    # (a, overflow) tuple of AddWithOverflow: the value is field .0 of it
+                    if not inc and st[2][1][1][1]:
+                        for (db, dk, drv) in f2.defs.get(st[2][1][1][0], []):
+                            if dk == 'A' and drv[0] == 'bin' and drv[1] in ('AddWithOverflow',):
+                                inc = True
+                if selfdep and inc:
+                    r2.ok('instance-id-forward|%s' % short, loc=f2.loc(b))
+                elif k.endswith('VariableStorage::new') or k.endswith('Default>::default'):
+                    r2.ok('instance-id-forward|%s' % short, loc=f2.loc(b), detail='constructor')
+                else:
+                    r2.bad('instance-id-forward|%s' % short, '%s sets the instance id counter to something other than its own value plus one: ids are handed out again, and a handle that survived (a retained FB-typed global, a typed I/O binding, an access path) then names a different instance - values of one declared type are written into the slots of another' % short.split('::')[-1], loc=f2.loc(b))
+    r2.saw(max(n_w, 1))
